@@ -74,6 +74,28 @@ def r26_1(ctx, rep):
     fn = _main_fn(ctx, R)
     cfg = CFG(fn, R)
     incs = {x.id for x in cfg.nodes if _is_inc(x)}
+    # partial counters: a local that starts at 0, is incremented, and is added to the error counter on every path afterwards counts as well
+    # (the shape an extracted "check the options" helper leaves behind once it is inlined again)
+    adds = {}
+    for x in cfg.stmts():
+        a = x.ast
+        if isinstance(a, ast.AugAssign) and is_name(a.target, "errors") and isinstance(a.op, ast.Add) and isinstance(a.value, ast.Name):
+            adds.setdefault(a.value.id, set()).add(x.id)
+    for x in cfg.stmts():
+        a = x.ast
+        if isinstance(a, ast.AugAssign) and isinstance(a.target, ast.Name) and isinstance(a.op, ast.Add) and a.target.id != "errors":
+            # follow plain copies  sub -> other = sub -> errors += other
+            names, changed = {a.target.id}, True
+            while changed:
+                changed = False
+                for y in cfg.stmts():
+                    if isinstance(y.ast, ast.Assign) and len(y.ast.targets) == 1 and isinstance(y.ast.targets[0], ast.Name) and isinstance(y.ast.value, ast.Name) \
+                            and y.ast.value.id in names and y.ast.targets[0].id not in names:
+                        names.add(y.ast.targets[0].id)
+                        changed = True
+            sinks = set().union(*[adds.get(n, set()) for n in names]) if names else set()
+            if sinks and cfg.must_pass(x.id, cfg.exit, sinks) is None:
+                incs.add(x.id)
     logs = [x for x in cfg.nodes if _is_log_error(x)]
     if len(logs) < 6:
         raise MechanismMissing(R, "fewer than 6 log.error sites found in main()")
